@@ -235,17 +235,21 @@ class Merge(Expr):
                 _npartitions = max(self.left.npartitions, self.right.npartitions)
 
         elif self.is_broadcast_join:
-            meta_index_names = set(self._meta.index.names)
-            if (
-                self.broadcast_side == "left"
-                and set(self.right._meta.index.names) == meta_index_names
-            ):
-                return self._bcast_right._divisions()
-            elif (
-                self.broadcast_side == "right"
-                and set(self.left._meta.index.names) == meta_index_names
-            ):
-                return self._bcast_left._divisions()
+            # The result keeps the index of the frame that is not broadcasted
+            # only if the broadcasted frame is joined on its index
+            if self.broadcast_side == "left":
+                divisions = self._bcast_right._divisions()
+                keeps_index = self.left_index or _contains_index_name(
+                    self.left._meta, self.left_on
+                )
+            else:
+                divisions = self._bcast_left._divisions()
+                keeps_index = self.right_index or _contains_index_name(
+                    self.right._meta, self.right_on
+                )
+            if keeps_index:
+                return divisions
+            return (None,) * len(divisions)
             _npartitions = max(self.left.npartitions, self.right.npartitions)
 
         else:
@@ -684,8 +688,20 @@ class BroadcastJoin(Merge, PartitionsFiltered):
 
     def _divisions(self):
         if self.broadcast_side == "left":
-            return self.right._divisions()
-        return self.left._divisions()
+            frame = self.right
+            keeps_index = self.left_index or _contains_index_name(
+                self.left._meta, self.left_on
+            )
+        else:
+            frame = self.left
+            keeps_index = self.right_index or _contains_index_name(
+                self.right._meta, self.right_on
+            )
+        divisions = frame._divisions()
+        if keeps_index:
+            return divisions
+        # merging on columns of the broadcasted frame creates a new index
+        return (None,) * len(divisions)
 
     def _simplify_up(self, parent, dependents):
         return
